@@ -45,6 +45,14 @@ Theorem C17_export_selects_longest : forall (t : table) (rows : list xrow),
   heights_from 0 rows -> export_db t = export rows.
 Proof. exact export_db_longest. Qed.
 
+(* The exported file depends on nothing but the longest-chain rows of the table being exported - in
+   particular not on earlier exports (the model's export has no other input; the correspondence check
+   exports after failed and successful earlier exports in the same temporary directory). *)
+Theorem C17_export_depends_on_store_only : forall t1 t2 : table,
+  filter (fun p => N.eqb (snd p) st_longest) t1 = filter (fun p => N.eqb (snd p) st_longest) t2 ->
+  export_db t1 = export_db t2.
+Proof. exact export_store_only. Qed.
+
 (* Bad files make start-up fail, and nothing of them stays in the database.
    (1) A record with a wrong number of fields or a field that does not parse (strconv range checks:
    int32 version, uint32 nonce and bits, int64 timestamp, <= 64 hex digits). *)
@@ -126,6 +134,7 @@ Proof. exact ChainExport.C17_over_histories. Qed.
 Print Assumptions C17_roundtrip.
 Print Assumptions C17_roundtrip_startup.
 Print Assumptions C17_export_selects_longest.
+Print Assumptions C17_export_depends_on_store_only.
 Print Assumptions C17_import_refuses_malformed.
 Print Assumptions C17_import_refuses_missing.
 Print Assumptions C17_import_refuses_no_rows.
